@@ -64,6 +64,7 @@ AlphaSeq ==
       [] Family = "shadowram" -> <<"Lc", "LDc", "C10", "{", "}", "A2", "A1", "La">>
       [] Family = "loopscope" -> <<"FOR02{", "N{", "}", "La", "DLna", "DLa", "DB">>
       [] Family = "shadowdata" -> <<"C10", "Lc", "Ec5", "DLc", "{", "}", "DB", "N{">>
+      [] Family = "shadowloop" -> <<"Lc", "LDc", "C10", "FOR02{", "}", "DLc", "DB", "La">>
       [] Family = "tiny"   -> <<"La", "DB", "DLa", "{", "}", "S3">>
 Alphabet == Range(AlphaSeq)
 TokIndex(t) == CHOOSE j \in 1..Len(AlphaSeq) : AlphaSeq[j] = t
